@@ -694,6 +694,36 @@ void reb_simulation_init(struct reb_simulation* r){
 }
 
 
+// The server thread serialises the simulation while holding server_data->mutex. Whenever the 
+// integration thread modifies the simulation outside of the main loop body (which is already protected), 
+// it needs to hold the mutex as well. Otherwise a client can receive a half-synchronized simulation.
+static void reb_server_lock(struct reb_simulation* const r){
+#ifdef SERVER
+    if (r->server_data){
+        // Note: Mutex is not FIFO. Allow pending requests to be served first.
+        while (r->server_data->need_copy == 1){
+            usleep(10);
+        }
+#ifdef _WIN32
+        WaitForSingleObject(r->server_data->mutex, INFINITE);
+#else // _WIN32
+        pthread_mutex_lock(&(r->server_data->mutex)); 
+#endif // _WIN32
+    }
+#endif //SERVER
+}
+static void reb_server_unlock(struct reb_simulation* const r){
+#ifdef SERVER
+    if (r->server_data){
+#ifdef _WIN32
+        ReleaseMutex(r->server_data->mutex);
+#else // _WIN32
+        pthread_mutex_unlock(&(r->server_data->mutex));
+#endif // _WIN32
+    }
+#endif //SERVER
+}
+
 int reb_check_exit(struct reb_simulation* const r, const double tmax, double* last_full_dt){
     const int reb_verif_status_in = r->status;
     const double reb_verif_dt_in = r->dt;
@@ -736,13 +766,16 @@ int reb_check_exit(struct reb_simulation* const r, const double tmax, double* la
                         r->status = REB_STATUS_SUCCESS;
                     }else{
                         // not there yet, do another step.
+                        reb_server_lock(r);
                         REB_VERIF(r, "ce_sync_b", 1, (double)r->steps_done);
                         reb_simulation_synchronize(r);
                         REB_VERIF_YIELD("ce_sync");
                         r->dt = tmax-r->t;
                         REB_VERIF(r, "ce_sync_e", 1, (double)r->steps_done);
+                        reb_server_unlock(r);
                     }
                 }else{
+                    reb_server_lock(r);
                     r->status = REB_STATUS_LAST_STEP; // Do one small step, then exit.
                     REB_VERIF(r, "ce_sync_b", 1, (double)r->steps_done);
                     reb_simulation_synchronize(r);
@@ -752,6 +785,7 @@ int reb_check_exit(struct reb_simulation* const r, const double tmax, double* la
                     }
                     r->dt = tmax-r->t;
                     REB_VERIF(r, "ce_sync_e", 1, (double)r->steps_done);
+                    reb_server_unlock(r);
                 }
             }else{
                 if (r->status == REB_STATUS_LAST_STEP){
@@ -934,6 +968,7 @@ static void* reb_simulation_integrate_raw(void* args){
             usleep(r->usleep);
         }
     }
+    reb_server_lock(r);
     REB_VERIF(r, "fin_sync_b", 1, (double)r->steps_done);
     reb_simulation_synchronize(r);
     REB_VERIF_YIELD("fin_sync");
@@ -941,6 +976,7 @@ static void* reb_simulation_integrate_raw(void* args){
         r->dt = last_full_dt; 
     }
     REB_VERIF(r, "fin_sync_e", 1, (double)r->steps_done);
+    reb_server_unlock(r);
     if (r->simulationarchive_filename){ reb_simulationarchive_heartbeat(r);}
     REB_VERIF(r, "int_end", 3, r->t, r->dt, (double)r->status);
 
